@@ -83,8 +83,9 @@ def _tokens_exit_failures():
             continue
         if r['top_level'] == 0 and r['my_tokens_after'] + r['cheat_bytes'] != 1:
             out['exit.one_token'].append(dict(obs, clause='my_tokens_after + cheat_bytes_written == 1'))
-        if r['cheats_after'] != r['cheat_bytes']:
-            out['exit.cheat_bytes'].append(dict(obs, clause='cheats_after == cheat_bytes_written'))
+        debt = 1 if (r['top_level'] == 0 and r['cheats_after'] == 0 and r['my_tokens_after'] == 0) else 0
+        if r['cheat_bytes'] != r['cheats_after'] + debt:
+            out['exit.cheat_bytes'].append(dict(obs, clause='cheat_bytes_written == cheats_after + (1 if leaving with nothing under an inherited jobserver)'))
         if r['my_tokens_after'] + r['token_bytes'] != (r['my_tokens'] - r['cheats']) + r['children']:
             out['exit.ledger'].append(dict(obs, clause='my_tokens_after + token_bytes_written == real_before + children'))
     return out
